@@ -1,7 +1,7 @@
 (* Entry points evaluated by the correspondence harness (harness/c11.py; reused by C01-C04). *)
 From Coq Require Import NArith List String Bool.
 From Verif Require Import Base.Chars Base.Show Base.StrX
-                          Imports.Import Imports.ImportSet Imports.Format Imports.ImportLex.
+                          Imports.Import Imports.ImportSet Imports.Format Imports.ImportLex Imports.Cli.
 Import ListNotations.
 Open Scope string_scope.
 
@@ -79,3 +79,27 @@ Definition run_without (a b : list (str * str)) : string :=
   show_imports (without_imports (from_imports false (mk_imports a)) (from_imports false (mk_imports b))).
 Definition run_by_import_as (a : list (str * str)) (n : str) : string :=
   show_imports (by_import_as (from_imports false (mk_imports a)) n).
+
+(* ImportSet(l, ignore_shadowed=b).pretty_print(allow_conflicts=True) under the default ImportFormatParams: the
+   text inside repr() *)
+Definition default_params : params := mkParams None 4 Never (AlignBool true) 1 true false.
+Definition run_print_allow_conflicts (ignore_shadowed : bool) (l : list (str * str)) : string :=
+  show_print (print_set_allow_conflicts default_params (from_imports ignore_shadowed (mk_imports l))).
+
+(* the command-line tools: effective params from [tool.pyflyby] settings and the options in command-line order,
+   then the printed block *)
+Definition show_params (P : params) : string :=
+  show_obj [("width", show_option show_nat (max_line_length P));
+            ("hanging", match hanging P with Never => show_string "never" | Auto => show_string "auto" | Always => show_string "always" end);
+            ("align", match align_imports P with
+                      | AlignBool b => show_bool b
+                      | AlignCol c => show_nat c
+                      | AlignCols cs => show_list show_nat cs
+                      end);
+            ("from_spaces", show_nat (from_spaces P));
+            ("separate", show_bool (separate_from_imports P));
+            ("align_future", show_bool (align_future P))].
+Definition run_cli_print (pyproject cmdline : list cli_option) (ignore_shadowed : bool) (l : list (str * str)) : string :=
+  let P := fold_format_options pyproject cmdline in
+  show_obj [("params", show_params P);
+            ("print", show_print (print_set_r P (from_imports ignore_shadowed (mk_imports l))))].
